@@ -134,8 +134,88 @@ def _r10e(chk, repo) -> None:
 
 
 # ---------------------------------------------------------------------------
-def _is_self_attr(e, attr) -> bool:
-    return attr_chain(e) == ("self", attr) or attr_chain(e) == ("cls", attr)
+# resolved facts shared by the rules: nothing below depends on the name of a local
+def _xchain(cfg, node, at):
+    """``(root, attribute tail, statement where root is evaluated)`` of an attribute chain with
+    plain locals replaced by the single expression they hold: ``t = self.templated_file;
+    t.source_str`` -> (``self``, ('templated_file', 'source_str'), <assign>)."""
+    tail = []
+    for _ in range(8):
+        while isinstance(node, ast.Attribute):
+            tail.append(node.attr)
+            node = node.value
+        if isinstance(node, ast.Name):
+            os_ = origins(cfg, node, at)
+            if len(os_) == 1 and os_[0].kind == "expr" and not os_[0].path and isinstance(os_[0].expr, ast.Attribute):
+                node, at = os_[0].expr, os_[0].stmt
+                continue
+        break
+    return node, tuple(reversed(tail)), at
+
+
+def _xatoms(cfg, test, polarity, at, _depth=0):
+    """``atoms()`` with boolean locals opened up: ``ok = a and b; if ok:`` gives the same facts as
+    ``if a and b:``.  Triples (expr, truth, statement where expr is evaluated)."""
+    out = []
+    for e, pol in atoms(test, polarity):
+        if isinstance(e, ast.Name) and _depth < 6:
+            os_ = origins(cfg, e, at)
+            if len(os_) == 1 and os_[0].kind == "expr" and not os_[0].path and not isinstance(os_[0].expr, ast.Name):
+                out += _xatoms(cfg, os_[0].expr, pol, os_[0].stmt, _depth + 1)
+                continue
+        out.append((e, pol, at))
+    return out
+
+
+def _xconditions(cfg, stmt):
+    """``cfg.conditions(stmt)`` on ``_xatoms``."""
+    out = []
+    for g in cfg.guards(stmt):
+        if isinstance(g.stmt, (ast.If, ast.While)):
+            out += _xatoms(cfg, g.stmt.test, g.polarity, g.stmt)
+    return out
+
+
+def _is_self_flag(cfg, e, at, attr) -> bool:
+    root, tail, at2 = _xchain(cfg, e, at)
+    return tail == (attr,) and isinstance(root, ast.Name) and root.id in ("self", "cls") and param_origin(cfg, root, at2) == root.id
+
+
+def _is_fixes_of(cfg, e, at, pname) -> bool:
+    """``<parameter pname>.fixes`` (possibly read through locals)."""
+    if not isinstance(e, (ast.Name, ast.Attribute)):
+        return False
+    root, tail, at2 = _xchain(cfg, e, at)
+    return tail == ("fixes",) and isinstance(root, ast.Name) and param_origin(cfg, root, at2) == pname
+
+
+def _mentions_fixes_of(cfg, e, at, pname) -> bool:
+    """The expression contains ``<pname>.fixes``, a local holding it, or the variable of a loop over it."""
+    for n in ast.walk(e):
+        if _is_fixes_of(cfg, n, at, pname):
+            return True
+        if isinstance(n, ast.Name):
+            fo = for_origin(cfg, n, at)
+            if fo is not None and not fo[1] and _is_fixes_of(cfg, fo[0].iter, fo[0], pname):
+                return True
+    return False
+
+
+def _handover_sinks(cfg, f, res_p):
+    """(node, out-parameter) for every place where the result's fixes are put into a caller-owned list."""
+    sinks = []
+    for c in calls_in(f):
+        if last_attr(c) in ("extend", "append", "insert") and isinstance(c.func, ast.Attribute) and c.args:
+            st = cfg.stmt_of(c)
+            p = param_origin(cfg, c.func.value, st)
+            if p and _mentions_fixes_of(cfg, c.args[-1], st, res_p):
+                sinks.append((c, p))
+    for n in walk_local(f):
+        if isinstance(n, ast.AugAssign):
+            p = param_origin(cfg, n.target, n)
+            if p and _mentions_fixes_of(cfg, n.value, n, res_p):
+                sinks.append((n, p))
+    return sinks
 
 
 def _r10a(chk, repo) -> None:
@@ -147,18 +227,7 @@ def _r10a(chk, repo) -> None:
         raise AnalysisError("_process_lint_result signature changed")
     res_p = params[0]
     # sinks: the result's fixes handed to a caller-owned list
-    sinks = []
-    for c in calls_in(f):
-        if last_attr(c) in ("extend", "append") and isinstance(c.func, ast.Attribute) and c.args:
-            if param_origin(cfg, c.func.value, cfg.stmt_of(c)) and any(
-                isinstance(n, ast.Attribute) and n.attr == "fixes" and param_origin(cfg, n.value, cfg.stmt_of(c)) == res_p for n in ast.walk(c.args[0])
-            ):
-                sinks.append(c)
-    for n in walk_local(f):
-        if isinstance(n, ast.AugAssign) and param_origin(cfg, n.target, n) and any(
-            isinstance(x, ast.Attribute) and x.attr == "fixes" and param_origin(cfg, x.value, n) == res_p for x in ast.walk(n.value)
-        ):
-            sinks.append(n)
+    sinks = [s for s, _ in _handover_sinks(cfg, f, res_p)]
     chk.count("R10a.fix_handover_sites", len(sinks))
     chk.floor("R10a.fix_handover_sites", 1)
     # discard calls with the right arguments
@@ -175,8 +244,8 @@ def _r10a(chk, repo) -> None:
         for g in cfg.guards(d):
             if not isinstance(g.stmt, ast.If):
                 continue
-            other = atoms(g.stmt.test, not g.polarity)
-            if len(other) == 1 and other[0][1] is True and _is_self_attr(other[0][0], "template_safe_fixes"):
+            other = _xatoms(cfg, g.stmt.test, not g.polarity, g.stmt)
+            if len(other) == 1 and other[0][1] is True and _is_self_flag(cfg, other[0][0], other[0][2], "template_safe_fixes"):
                 b = branch_of(cfg, g.stmt, not g.polarity)
                 if b is not None:
                     skips.append(b)
@@ -194,20 +263,33 @@ def _r10a(chk, repo) -> None:
     dcfg = cfg_of(disc)
     dparams = [a.arg for a in disc.args.args if a.arg not in ("self", "cls")]
     wired = False
+    empties = [
+        n for n in walk_local(disc)
+        if isinstance(n, ast.Assign) and len(n.targets) == 1 and isinstance(n.targets[0], ast.Attribute) and n.targets[0].attr == "fixes"
+        and param_origin(dcfg, n.targets[0].value, n) == dparams[0] and is_fresh_list(n.value)
+    ]
     for c in calls_in(disc):
-        if last_attr(c) == "has_template_conflicts" and isinstance(c.func, ast.Attribute) and c.args:
-            fo = for_origin(dcfg, c.func.value, dcfg.stmt_of(c))
-            if not (fo and isinstance(fo[0].iter, ast.Attribute) and fo[0].iter.attr == "fixes" and param_origin(dcfg, fo[0].iter.value, fo[0]) == dparams[0]):
-                continue
-            if param_origin(dcfg, c.args[0], dcfg.stmt_of(c)) != dparams[1]:
-                continue
-            for n in walk_local(disc):
-                if (
-                    isinstance(n, ast.Assign) and len(n.targets) == 1 and isinstance(n.targets[0], ast.Attribute) and n.targets[0].attr == "fixes"
-                    and param_origin(dcfg, n.targets[0].value, n) == dparams[0] and isinstance(n.value, ast.List) and not n.value.elts
-                ):
-                    if any(e is c and pol for e, pol in dcfg.conditions(n)):
-                        wired = True
+        if not (last_attr(c) == "has_template_conflicts" and isinstance(c.func, ast.Attribute)):
+            continue
+        a0 = arg_of(c, 0, "templated_file")
+        if a0 is None or param_origin(dcfg, a0, dcfg.stmt_of(c)) != dparams[1]:
+            continue
+        # (i) `for fix in <result>.fixes: if fix.has_template_conflicts(tf): <empty>` -- the test may sit in a local
+        fo = for_origin(dcfg, c.func.value, dcfg.stmt_of(c))
+        if fo is not None and not fo[1] and _is_fixes_of(dcfg, fo[0].iter, fo[0], dparams[0]):
+            if any(e is c and pol for n in empties for e, pol, _ in _xconditions(dcfg, n)):
+                wired = True
+        # (ii) `if any(fix.has_template_conflicts(tf) for fix in <result>.fixes): <empty>`
+        for n in empties:
+            for e, pol, at in _xconditions(dcfg, n):
+                if not (pol and isinstance(e, ast.Call) and call_name(e) == "any" and len(e.args) == 1 and not e.keywords):
+                    continue
+                g = e.args[0]
+                if not (isinstance(g, (ast.GeneratorExp, ast.ListComp)) and g.elt is c and len(g.generators) == 1 and not g.generators[0].ifs):
+                    continue
+                gen = g.generators[0]
+                if isinstance(gen.target, ast.Name) and isinstance(c.func.value, ast.Name) and c.func.value.id == gen.target.id and _is_fixes_of(dcfg, gen.iter, at, dparams[0]):
+                    wired = True
     chk.require(
         wired, "R10a", disc,
         "discard_unsafe_fixes does not empty the result's fixes under fix.has_template_conflicts(templated_file) for each of its fixes",
@@ -215,15 +297,16 @@ def _r10a(chk, repo) -> None:
     )
     # early exits of the discard: only for "no fixes" / "no templated file"
     def _is_input(x, at) -> bool:
-        return (isinstance(x, ast.Attribute) and x.attr == "fixes" and param_origin(dcfg, x.value, at) == dparams[0]) or param_origin(dcfg, x, at) == dparams[1]
+        return _is_fixes_of(dcfg, x, at, dparams[0]) or param_origin(dcfg, x, at) == dparams[1]
 
-    def _accepted_exit(g) -> bool:
-        t = g.stmt.test
-        if g.polarity:
-            parts = t.values if isinstance(t, ast.BoolOp) and isinstance(t.op, ast.Or) else [t]
-            return all(isinstance(v, ast.UnaryOp) and isinstance(v.op, ast.Not) and _is_input(v.operand, g.stmt) for v in parts)
-        parts = t.values if isinstance(t, ast.BoolOp) and isinstance(t.op, ast.And) else [t]
-        return all(_is_input(v, g.stmt) for v in parts)
+    def _implies_no_input(e, pol, at) -> bool:
+        """The fact (e is pol) implies that the result has no fixes or that there is no templated file."""
+        if not pol and _is_input(e, at):
+            return True
+        if isinstance(e, ast.BoolOp) and ((isinstance(e.op, ast.Or) and pol) or (isinstance(e.op, ast.And) and not pol)):
+            # one of the alternatives holds: each of them has to imply it
+            return all(any(_implies_no_input(a, p, at2) for a, p, at2 in _xatoms(dcfg, v, pol, at)) for v in e.values)
+        return False
 
     hcalls = [dcfg.stmt_of(c) for c in calls_in(disc) if last_attr(c) == "has_template_conflicts"]
     for r in [r for r in walk_local(disc) if isinstance(r, ast.Return)]:
@@ -231,8 +314,9 @@ def _r10a(chk, repo) -> None:
             continue  # after the conflict test
         gs = [g for g in dcfg.guards(r) if isinstance(g.stmt, ast.If)]
         tests = [short(g.stmt.test, 80) for g in gs]
+        # every fact known at the return holds together: one that implies an accepted reason is enough
         chk.require(
-            bool(gs) and all(_accepted_exit(g) for g in gs), "R10a", r,
+            any(_implies_no_input(e, pol, at) for e, pol, at in _xconditions(dcfg, r)), "R10a", r,
             f"discard_unsafe_fixes returns before the template-conflict test under {tests}; accepted early exits are only 'no fixes' and 'no templated file'",
             detail="discard early exit only for no fixes / no templated file",
         )
@@ -270,11 +354,9 @@ def _crawl(chk, repo, plr) -> None:
     pparams = [a.arg for a in plr.args.args if a.arg not in ("self", "cls")]
     out_idx = None
     pcfg = cfg_of(plr)
-    for c in calls_in(plr):
-        if last_attr(c) in ("extend", "append") and isinstance(c.func, ast.Attribute):
-            p = param_origin(pcfg, c.func.value, pcfg.stmt_of(c))
-            if p in pparams and c.args and any(isinstance(n, ast.Attribute) and n.attr == "fixes" for n in ast.walk(c.args[0])):
-                out_idx = pparams.index(p)
+    for _, p in _handover_sinks(pcfg, plr, pparams[0]):
+        if p in pparams:
+            out_idx = pparams.index(p)
     passed = set()
     n_calls = 0
     for c in calls_in(f):
